@@ -12,19 +12,20 @@ static int drv_main(int argc, char **argv, drv_case_fn fn)
   FILE  *f;
   char  *line = NULL;
   size_t cap  = 0;
-  long   k = 0, start = 0;
+  long   k = 0, start = 0, maxcases = -1;
   ssize_t n;
   if (argc < 2) {
     fprintf(stderr, "usage: %s casefile [start]\n", argv[0]);
     return 2;
   }
   if (argc > 2) start = atol(argv[2]);
+  if (argc > 3) maxcases = atol(argv[3]);   /* run only this many cases (one process per case) */
   f = fopen(argv[1], "r");
   if (!f) { perror("casefile"); return 2; }
   setvbuf(stdout, NULL, _IOLBF, 0);
   while ((n = getline(&line, &cap, f)) >= 0) {
     while (n > 0 && (line[n - 1] == '\n' || line[n - 1] == '\r')) line[--n] = 0;
-    if (k >= start) {
+    if (k >= start && (maxcases < 0 || k < start + maxcases)) {
       printf("BEGIN %ld\n", k);
       fn(k, line);
       printf("END %ld\n", k);
